@@ -208,7 +208,8 @@ def check(run):
             run.holds('struct %s: every skipped field is defaulted by the reader at exactly the skipped value; names agree (%d fields)' % (sname, len(fields)), 'M', queries=max(1, len(fields)))
     # (e) present fields go through the field type's own Serialize / Deserialize impl: a per-field codec (`with`, `serialize_with`,
     #     `deserialize_with`) or a container conversion (`from`, `try_from`, `into`) is code the obligations above do not see
-    hooks = sorted({f.name for f in prog.fns if re.search(r'__DeserializeWith|__SerializeWith|__AdjacentlyTagged', f.name)})
+    # (the derive nests `impl Deserialize for __DeserializeWith` inside visit_map / visit_seq and `impl Serialize for __SerializeWith` inside serialize)
+    hooks = sorted({f.name for f in prog.fns if re.search(r'__DeserializeWith|__SerializeWith|::visit_(map|seq)::<impl at [^>]*>::deserialize$|::serialize::<impl at [^>]*>::serialize$', f.name)})
     conv = sorted({f.name for f in prog.fns if re.search(r'ast::_::<impl at [^>]*>::(serialize|deserialize)$', f.name)
                    and any(re.search(r'as (TryFrom|From|Into|TryInto)<', st) for sts in f.blocks.values() for st in sts)})
     title = 'every present field is written and read by its own type\'s serde impl (no per-field codec or container conversion between writer and reader)'
